@@ -20,6 +20,8 @@ for d in sorted(os.listdir('/verif/seeded')):
         det.append(f"{p}: {cl}" + (' …' if len(r['classes']) > 4 else ''))
     files = sorted(set(re.findall(r'^\+\+\+ b/(\S+)', open(f'/verif/seeded/{d}/patch.diff').read(), re.M)))
     files = ', '.join(f.replace('wtransport-proto/src/', 'proto:').replace('wtransport/src/', 'wt:') for f in files)
+    if j.get('detected') is False:
+        det = ['**not detected** (outside the simulator)']
     rows.append((d, j['property'], files, short, '; '.join(det), how))
 print('| seeded change | files | what it needs to manifest | reported by quick check as | strengthening needed |')
 print('|---|---|---|---|---|')
